@@ -17,12 +17,13 @@ import (
 	"strings"
 	"testing"
 
+	"github.com/ontio/ontology/vm/neovm"
 	"pgregory.net/rapid"
 
 	"verifharness/internal/harn"
 )
 
-const c15WideRule = "wide maps: one map with n entries, n from {3,1023,1024,1025,1026,1100,2048} ∪ [2,1030] ∪ [1025,6000] (few up to 150000, i.e. across the 1 MiB serialization limit), distinct generated keys of 0–3 bytes ((i·mult+add) mod 2^24, little-endian, trailing zeros stripped), bool or small-int values, optionally nested one level in an array/struct/map, followed by 1–3 of Serialize / put / notify / re-serialize / KEYS / VALUES / HASKEY / PICKITEM; 5 executions must agree; non-trivial = a map with >= 2 entries reaches Serialize, KEYS or VALUES; distinct = different (n, key parameters, nesting, actions)"
+const c15WideRule = "wide maps: one map with n entries, n from {3,1023,1024,1025,1026,1100,2048} ∪ [2,1030] ∪ [1025,6000] (few up to 150000, i.e. across the 1 MiB serialization limit), distinct generated keys of 0–3 bytes ((i·mult+add) mod 2^24, little-endian, trailing zeros stripped; maps of >= 6000 entries are filled by an in-program loop with the integer keys n..1), bool or small-int values, optionally nested one level in an array/struct/map, followed by 1–3 of Serialize / put / notify / re-serialize / KEYS / VALUES / HASKEY / PICKITEM; 5 executions must agree; non-trivial = a map with >= 2 entries reaches Serialize, KEYS or VALUES; distinct = different (n, key parameters, nesting, actions)"
 
 func wideKey(i, mult, add int) []byte {
 	v := (i*mult + add) & 0xffffff
@@ -45,7 +46,7 @@ func TestC15_WideMaps(t *testing.T) {
 	defer w.Close()
 	const K = 5
 
-	harn.Check(t, 60, 3000, func(t *rapid.T) {
+	harn.Check(t, 200, 6000, func(t *rapid.T) {
 		var n int
 		switch k := rapid.IntRange(0, 19).Draw(t, "nkind"); {
 		case k < 9:
@@ -57,7 +58,7 @@ func TestC15_WideMaps(t *testing.T) {
 		default:
 			hi := 30000
 			if harn.Thorough() {
-				hi = 150000
+				hi = 200000 // beyond what fits into the 1 MiB serialization limit (~130000 entries)
 			}
 			n = rapid.IntRange(6000, hi).Draw(t, "nhuge")
 		}
@@ -76,13 +77,21 @@ func TestC15_WideMaps(t *testing.T) {
 			}
 		}
 		m := s.add(node{K: kMap})
-		mk := make([]int, n)
-		me := make([]int, n)
-		for i := 0; i < n; i++ {
+		var mk, me []int
+		for i := 0; i < n && n < 6000; i++ {
+			mk, me = append(mk, 0), append(me, 0)
 			mk[i] = s.add(node{K: kBytes, B: wideKey(i, mult, add)})
 			me[i] = vals[i%len(vals)]
 		}
-		s.N[m].MK, s.N[m].E = mk, me
+		// maps of 6000 and more entries are filled by a loop inside the program (keys = the integers
+		// n..1, i.e. 1–3 key bytes): straight-line code for them would exceed the 1 MiB contract size
+		loopBuilt := n >= 6000
+		if loopBuilt {
+			// the description only carries a few existing keys for PICKITEM / HASKEY
+			s.N[m].MK = []int{s.add(node{K: kInt, I: "1"}), s.add(node{K: kInt, I: fmt.Sprint(n)}), s.add(node{K: kInt, I: fmt.Sprint(n/2 + 1)})}
+		} else {
+			s.N[m].MK, s.N[m].E = mk, me
+		}
 		s.Root = m
 		switch nest {
 		case kArray, kStruct:
@@ -103,6 +112,27 @@ func TestC15_WideMaps(t *testing.T) {
 		}
 		sh := shape{s: s, kind: "wide", maps: []int{m}, acyclic: true}
 		c := compileValue(s)
+		if loopBuilt {
+			c.pushBytes(neoBytes(mustBig(fmt.Sprint(n))))
+			c.op(neovm.PUSH0)
+			c.op(neovm.ADD) // i = n as an integer
+			loop := len(c.code)
+			c.op(neovm.DUP)
+			jz := len(c.code)
+			c.op(neovm.JMPIFNOT)
+			c.code = append(c.code, 0, 0)
+			c.ref(m)
+			c.op(neovm.OVER)
+			c.op(neovm.PUSH1)
+			c.op(neovm.SETITEM) // m[i] = 1
+			c.op(neovm.DEC)
+			back := loop - len(c.code)
+			c.op(neovm.JMP)
+			c.code = append(c.code, byte(back), byte(back>>8))
+			end := len(c.code) - jz
+			c.code[jz+1], c.code[jz+2] = byte(end), byte(end>>8)
+			c.op(neovm.DROP)
+		}
 
 		menu := []string{"serialize", "serialize", "serialize-put", "serialize-notify", "reserialize", "keys", "values", "haskey", "pickitem"}
 		nact := rapid.IntRange(1, 3).Draw(t, "nact")
